@@ -148,11 +148,16 @@ def signature(step, rec, why):
         z = [k for k in ("cut", "trim") if obs.get(k) == 0]
         return "part:%s:%s" % (fld or "rejected", "zero-" + "-".join(z) if z else "nz")
     if a == "apply2":
-        return "apply2:%s:%s" % (fld or "rejected", merge_tags(obs.get("parts") or [], ((rec or {}).get("dbg") or {}).get("parts0") or []))
+        parts = obs.get("parts") or []
+        only = (rec or {}).get("badpart")        # named by TLC for a rejected trace event
+        if only is None and exp:                  # replay: the first part that differs from the design
+            ep = exp.get("parts") or []
+            only = next((j + 1 for j in range(min(len(ep), len(parts))) if ep[j] != parts[j]), None)
+        return "apply2:%s:%s" % (fld or "rejected", merge_tags(parts, ((rec or {}).get("dbg") or {}).get("parts0") or [], only))
     return "%s:%s" % (a, fld or "rejected")
 
 
-def merge_tags(parts, parts0):
+def merge_tags(parts, parts0, only=None):
     """Structure of the trims in a two-dimension result relative to the parts of the first dimension
     (describes the failing case, decides nothing): for a sub-part with a trim, is it the last sub-part of
     its old part or an inner one, does its line end where the old line ends, and how does its trim compare
@@ -164,10 +169,10 @@ def merge_tags(parts, parts0):
         s += p[0]
     tags = set()
     s = 0
-    for p in parts:
+    for j, p in enumerate(parts):
         raw, usr, cut, trim = p
         o = next((x for x in olds if x[0] <= s < x[1]), None)
-        if o and usr and o[3]:
+        if o and usr and o[3] and (only is None or only == j + 1):
             pos = "last" if s + raw >= o[1] else "inner"
             end = "same" if s + usr == o[2] else "other"
             rel = "=old" if trim == o[3] else ("<old" if trim < o[3] else ">old")
@@ -215,6 +220,9 @@ def validate(ck, behs, recs, lim, tag, what):
         beh = behs[b]
         step = beh[ev["i"]]
         rec = {"obs": ev.get("obs"), "dbg": ev.get("dbg")}
+        m = vlib.re.findall(r'<<"BADPART", %d, (\d+)>>' % (matched + 1), tres.out)
+        if m:
+            rec["badpart"] = int(m[-1])
         why = ev["a"] if ev["a"] in ("Crash", "Hang", "Garbled", "Missing") else "rejected"
         sig = what + ":" + signature(step, rec, why)
         small = [dict(s, arg=(dict(s["arg"], data="(%d values)" % len(s["arg"]["data"])) if len(s.get("arg", {}).get("data", [])) > 200 else s.get("arg"))) for s in beh]
@@ -356,7 +364,7 @@ def run(tier):
     results = {}
 
     def job(key, module, c, **kw):
-        results[key] = vlib.tlc(module, c, tag="%s-%s" % (module, c), **kw)
+        results[key] = vlib.tlc(module, c, tag="%s-%s" % (module, c), xss="512m", **kw)
 
     ths = []
     for c, what in cfg["mc"]:
@@ -367,6 +375,9 @@ def run(tier):
         t.start()
     for t in ths:
         t.join()
+    for key, r in results.items():      # TLC reports some evaluation errors with exit code 0
+        if not r.violation and (vlib.re.search(r"^Error: ", r.out, vlib.re.M) or r.distinct == 0):
+            raise vlib.MachineryError("TLC run %s failed:\n%s" % (key, "\n".join(l for l in r.out.splitlines() if not l.startswith('<<"BEHAV"'))[-3000:]))
     for c, what in cfg["mc"]:
         ck.add_tlc(results[("mc", c)], "exhaustive %s (%s)" % (c, what))
     vlib.log("TLC done: " + ", ".join("%s %.0fs" % (k[1], r.wall) for k, r in results.items()))
